@@ -130,6 +130,10 @@ static void case_plain(Tape &t, Ctx &cx)
     apply(q, c);
     a_pid_init(&p);
     a_pid_init(&q);
+    a_pid pm; // the same history through the C++ member functions of a_pid
+    memset(&pm, 0, sizeof(pm));
+    apply(pm, c);
+    pm.init();
     RefPid r{c.kp, c.ki, c.kd, c.summax, c.summin, 0, c.outmax, c.outmin, 0, 0, 0, 0};
     cx.label(L_PLAIN);
     cx.log("plain pid %s kp=%.17g ki=%.17g kd=%.17g sum[%.17g,%.17g] out[%.17g,%.17g]\n", exact ? "exact" : "real", c.kp, c.ki, c.kd, c.summin, c.summax, c.outmin, c.outmax);
@@ -146,6 +150,7 @@ static void case_plain(Tape &t, Ctx &cx)
         {
             a_pid_zero(&p);
             a_pid_zero(&q);
+            pm.zero();
             r.zero();
             zeroed = true;
             twin_ok = true;
@@ -160,6 +165,7 @@ static void case_plain(Tape &t, Ctx &cx)
             double kp = double(int(t.u8() % 129) - 64) / 8, ki = double(t.u8() % 65) / 8, kd = double(int(t.u8() % 129) - 64) / 8;
             a_pid_set_kpid(&p, kp, ki, kd);
             a_pid_set_kpid(&q, kp, ki, kd);
+            pm.set_kpid(kp, ki, kd);
             r.kp = kp; r.ki = ki; r.kd = kd;
             cx.label(L_GAIN_CHANGE);
             twin_ok = false; // a gain change breaks the telescoping of the incremental form
@@ -175,6 +181,10 @@ static void case_plain(Tape &t, Ctx &cx)
         double sum_before = p.sum;
         double got = mode == 0 ? a_pid_run(&p, set, fdb) : mode == 1 ? a_pid_pos(&p, set, fdb) : a_pid_inc(&p, set, fdb);
         double want = mode == 0 ? r.run(set, fdb) : mode == 1 ? r.pos(set, fdb) : r.inc(set, fdb);
+        {
+            double gm = mode == 0 ? pm.run(set, fdb) : mode == 1 ? pm.pos(set, fdb) : pm.inc(set, fdb);
+            VP_CHECK(cx, memcmp(&gm, &got, 8) == 0 && memcmp(&pm, &p, sizeof(p)) == 0, "pid:member_differs", "step %u mode %d: the C++ member function returns %.17g, the C function %.17g (or the states differ)", s, mode, gm, got);
+        }
         cx.log("  %s(set %.17g, fdb %.17g) -> %.17g (sum %.17g)\n", mode == 0 ? "run" : mode == 1 ? "pos" : "inc", set, fdb, got, p.sum);
         check_state(cx, p, "plain", s);
         VP_CHECK(cx, got == p.out, "pid:return_vs_state", "returned %.17g but out field is %.17g", got, p.out);
@@ -256,6 +266,18 @@ static void case_fuzzy(Tape &t, Ctx &cx)
     a_pid_fuzzy_set_bfuzz(&z, buf, f.n);
     a_pid_fuzzy_init(&z);
     a_pid_fuzzy_set_kpid(&z, c.kp, c.ki, c.kd);
+    // the same configuration and history through the C++ member functions (own scratch block)
+    a_pid_fuzzy zm;
+    memset(&zm, 0, sizeof(zm));
+    apply(zm.pid, c);
+    void *bufm = malloc(nb);
+    struct FrM { void *p; ~FrM() { free(p); } } frm{bufm};
+    zm.set_opr(f.opr);
+    zm.set_rule(f.n, me, mec, f.use_kp ? kp : nullptr, f.use_ki ? ki : nullptr, f.use_kd ? kd : nullptr);
+    zm.set_bfuzz(bufm, f.n);
+    zm.init();
+    zm.set_kpid(c.kp, c.ki, c.kd);
+    VP_CHECK(cx, zm.bfuzz() == bufm && a_pid_fuzzy_bfuzz(&z) == buf, "pid:member_differs", "bfuzz() does not return the block that was set");
     // twin: all-zero rule base == plain PID
     a_pid plain;
     memset(&plain, 0, sizeof(plain));
@@ -282,6 +304,7 @@ static void case_fuzzy(Tape &t, Ctx &cx)
                 f.use_kp = (m & 1) != 0; f.use_ki = (m & 2) != 0; f.use_kd = (m & 4) != 0;
                 cx.log("set_rule mid-history: kp %d ki %d kd %d\n", f.use_kp, f.use_ki, f.use_kd);
                 a_pid_fuzzy_set_rule(&z, f.n, me, mec, f.use_kp ? kp : nullptr, f.use_ki ? ki : nullptr, f.use_kd ? kd : nullptr);
+                zm.set_rule(f.n, me, mec, f.use_kp ? kp : nullptr, f.use_ki ? ki : nullptr, f.use_kd ? kd : nullptr);
                 if (have_fresh) { a_pid_fuzzy_set_rule(&fresh, f.n, me, mec, f.use_kp ? kp : nullptr, f.use_ki ? ki : nullptr, f.use_kd ? kd : nullptr); }
                 cx.label(L_RULES_RECONFIGURED);
                 cx.hash.add(m & 7);
@@ -293,6 +316,7 @@ static void case_fuzzy(Tape &t, Ctx &cx)
                 f.opr = t.u8() % 7;
                 cx.log("set_opr mid-history: %u\n", f.opr);
                 a_pid_fuzzy_set_opr(&z, f.opr);
+                zm.set_opr(f.opr);
                 if (have_fresh) { a_pid_fuzzy_set_opr(&fresh, f.opr); }
                 cx.label(L_RULES_RECONFIGURED);
                 cx.hash.add(f.opr);
@@ -302,6 +326,7 @@ static void case_fuzzy(Tape &t, Ctx &cx)
         if (op == 7 && s > 0)
         {
             a_pid_fuzzy_zero(&z);
+            zm.zero();
             a_pid_zero(&plain);
             zeroed = true;
             cx.label(L_ZERO_MID);
@@ -329,6 +354,10 @@ static void case_fuzzy(Tape &t, Ctx &cx)
         int mode = op == 0 ? 0 : op <= 4 ? 1 : 2;
         double e_now = set - fdb, ec_now = e_now - z.pid.err;
         double got = mode == 0 ? a_pid_fuzzy_run(&z, set, fdb) : mode == 1 ? a_pid_fuzzy_pos(&z, set, fdb) : a_pid_fuzzy_inc(&z, set, fdb);
+        {
+            double gm = mode == 0 ? zm.run(set, fdb) : mode == 1 ? zm.pos(set, fdb) : zm.inc(set, fdb);
+            VP_CHECK(cx, memcmp(&gm, &got, 8) == 0 && memcmp(&zm.pid, &z.pid, sizeof(z.pid)) == 0, "pid:member_differs", "fuzzy step %u mode %d: the C++ member function returns %.17g, the C function %.17g (or the pid states differ)", s, mode, gm, got);
+        }
         check_state(cx, z.pid, "fuzzy", s);
         {
             // the gains used in this step are the base gains plus the weighted mean of the active consequents
@@ -374,6 +403,12 @@ static void case_neuro(Tape &t, Ctx &cx)
     a_pid_neuro_set_kpid(&n, k, c.kp, c.ki, c.kd);
     a_pid_neuro_set_wpid(&n, w0[0], w0[1], w0[2]);
     a_pid_neuro_init(&n);
+    a_pid_neuro nm; // the same history through the C++ member functions
+    memset(&nm, 0, sizeof(nm));
+    apply(nm.pid, c);
+    nm.set_kpid(k, c.kp, c.ki, c.kd);
+    nm.set_wpid(w0[0], w0[1], w0[2]);
+    nm.init();
     cx.label(L_NEURO);
     cx.hash.addd(k);
     for (double w : w0) { cx.hash.addd(w); }
@@ -389,6 +424,7 @@ static void case_neuro(Tape &t, Ctx &cx)
         if (op == 7 && s > 0)
         {
             a_pid_neuro_zero(&n);
+            nm.zero();
             zeroed = true;
             cx.label(L_ZERO_MID);
             // a freshly initialised controller with the same configuration (gains, limits, present weights)
@@ -408,6 +444,10 @@ static void case_neuro(Tape &t, Ctx &cx)
         cx.hash.addd(fdb);
         int mode = op == 0 ? 0 : 2;
         double got = mode == 0 ? a_pid_neuro_run(&n, set, fdb) : a_pid_neuro_inc(&n, set, fdb);
+        {
+            double gm = mode == 0 ? nm.run(set, fdb) : nm.inc(set, fdb);
+            VP_CHECK(cx, memcmp(&gm, &got, 8) == 0 && memcmp(&nm, &n, sizeof(n)) == 0, "pid:member_differs", "neuro step %u: the C++ member function returns %.17g, the C function %.17g (or the states differ)", s, gm, got);
+        }
         check_state(cx, n.pid, "neuro", s);
         VP_CHECK(cx, fin(n.wp) && fin(n.wi) && fin(n.wd) && fin(n.ec) && fin(n.k), "pid:state_not_finite", "neuro step %u: weights/ec not finite (%.17g, %.17g, %.17g, %.17g)", s, n.wp, n.wi, n.wd, n.ec);
         if (have_fresh)
